@@ -160,22 +160,45 @@ Qed.
 Lemma adif_pces_vbr_cons full c p rest :
   adif_pces 1 full c (p :: rest) = pce_fields c p ++ adif_pces 1 full (c + fields_width (pce_fields c p)) rest.
 Proof. cbn [adif_pces]. change (1 =? 0) with false. cbv iota. cbn [app fields_width]. rewrite Z.add_0_r. reflexivity. Qed.
-Lemma adif_pces_cbr_one full c p : adif_pces 0 full c [p] = (full, 20) :: pce_fields (c + 20) p.
+Lemma adif_pces_cbr_cons full c p rest :
+  adif_pces 0 full c (p :: rest) =
+  (full, 20) :: pce_fields (c + 20) p ++ adif_pces 0 full (c + 20 + fields_width (pce_fields (c + 20) p)) rest.
 Proof.
-  cbn [adif_pces]. change (0 =? 0) with true. cbv iota. cbn [app fields_width]. rewrite app_nil_r.
-  replace (c + (20 + 0)) with (c + 20) by lia. reflexivity.
+  cbn [adif_pces]. change (0 =? 0) with true. cbv iota. cbn [app fields_width].
+  replace (c + (20 + 0)) with (c + 20) by lia. rewrite Z.add_assoc. reflexivity.
 Qed.
 
 Lemma more_pces_spec ps : forall full r c fs tail, Forall valid_pce ps -> holds r c (adif_pces 1 full c ps ++ fs) tail ->
-  exists r', read_more_pces (length ps) (r, 0) = Some (r', 0) /\ holds r' (c + fields_width (adif_pces 1 full c ps)) fs tail.
+  exists r', read_more_pces 1 (length ps) (r, 0) = Some (r', 0) /\ holds r' (c + fields_width (adif_pces 1 full c ps)) fs tail.
 Proof.
   induction ps as [|p ps IH]; intros full r c fs tail V H.
   - exists r. split; [reflexivity|]. cbn [adif_pces fields_width app] in *. rewrite Z.add_0_r. exact H.
   - inversion V as [|? ? Vp Vps]; subst. rewrite adif_pces_vbr_cons in H |- *. rewrite <- app_assoc in H.
     destruct (read_pce_spec p r c _ tail Vp H) as (r1 & E1 & H1).
     destruct (IH full r1 _ fs tail Vps H1) as (r2 & E2 & H2).
-    exists r2. cbn [length read_more_pces]. rewrite E1. cbn [obind]. rewrite E2. split; [reflexivity|].
+    exists r2. cbn [length read_more_pces]. change (1 =? 0) with false. cbv iota. cbn [obind].
+    rewrite E1. cbn [obind]. rewrite E2. split; [reflexivity|].
     rewrite fw_app, Z.add_assoc. exact H2.
+Qed.
+
+(* constant rate: adif_buffer_fullness in front of every further program *)
+Lemma more_pces_spec_cbr ps : forall full r c fs tail, Forall valid_pce ps -> holds r c (adif_pces 0 full c ps ++ fs) tail ->
+  exists r', read_more_pces 0 (length ps) (r, 0) = Some (r', 0) /\ holds r' (c + fields_width (adif_pces 0 full c ps)) fs tail.
+Proof.
+  induction ps as [|p ps IH]; intros full r c fs tail V H.
+  - exists r. split; [reflexivity|]. cbn [adif_pces fields_width app] in *. rewrite Z.add_0_r. exact H.
+  - inversion V as [|? ? Vp Vps]; subst. rewrite adif_pces_cbr_cons in H |- *. cbn [app] in H. rewrite <- app_assoc in H.
+    cbn [length read_more_pces]. change (0 =? 0) with true. cbv iota.
+    ss1.
+    match goal with H : holds ?r _ _ _ |- _ => destruct (read_pce_spec p r (c + 20) _ tail Vp H) as (ra & E1 & H1) end.
+    destruct (IH full ra _ fs tail Vps H1) as (rb & E2 & H2).
+    exists rb. rewrite E1. cbn [obind]. rewrite E2. split; [reflexivity|].
+    cbn [fields_width]. rewrite fw_app.
+    replace (c + (20 + (fields_width (pce_fields (c + 20) p) +
+                        fields_width (adif_pces 0 full (c + 20 + fields_width (pce_fields (c + 20) p)) ps))))
+      with (c + 20 + fields_width (pce_fields (c + 20) p) +
+            fields_width (adif_pces 0 full (c + 20 + fields_width (pce_fields (c + 20) p)) ps)) by lia.
+    exact H2.
 Qed.
 
 Lemma adif_pces_ok bst full ps : 0 <= full < 2 ^ 20 -> Forall valid_pce ps -> forall n0, fields_ok (adif_pces bst full n0 ps).
@@ -227,7 +250,7 @@ Definition read_adif_body (s : ard) : option (list Z * ard) :=
   obind (a_bits 4 s) (fun '(npce, s) =>
   obind (if bitstream_type =? 0 then a_skip 20 s else Some s) (fun s =>
   obind (read_pce s) (fun '((sfi, channels), s) =>
-  obind (read_more_pces (Z.to_nat npce) s) (fun s =>
+  obind (read_more_pces bitstream_type (Z.to_nat npce) s) (fun s =>
   Some ([bitrate; sfi; channels], a_align s)))))))).
 Lemma read_adif_eq s :
   read_adif s = obind (a_bits 1 s) (fun '(cp, s) => obind (if negb (cp =? 0) then a_skip 72 s else Some s) read_adif_body).
@@ -236,7 +259,7 @@ Proof. reflexivity. Qed.
 Lemma read_adif_body_spec r c orig home bst bitrate full p0 rest pad tail :
   holds r c ((orig, 1) :: (home, 1) :: (bst, 1) :: (bitrate, 23) :: (zlen (p0 :: rest) - 1, 4) ::
              adif_pces bst full (c + 30) (p0 :: rest) ++ [(0, pad)]) tail ->
-  valid_pce p0 -> Forall valid_pce rest -> 0 <= pad < 8 -> bst = 1 \/ (bst = 0 /\ rest = []) ->
+  valid_pce p0 -> Forall valid_pce rest -> 0 <= pad < 8 -> bst = 1 \/ bst = 0 ->
   exists r', read_adif_body (r, 0) = Some ([bitrate; pc_sfi p0; pce_channels p0], (r', 0)) /\ zlen (br_rest r') = zlen tail.
 Proof.
   intros H V0 Vr Hpad Hdom. unfold read_adif_body.
@@ -245,7 +268,7 @@ Proof.
   replace (c + 2 + 1 + 23 + 4) with (c + 30) in * by lia.
   assert (Hn : Z.to_nat (zlen (p0 :: rest) - 1) = length rest) by (rewrite zlen_cons; unfold zlen; lia).
   rewrite Hn. clear Hn.
-  destruct Hdom as [-> | (-> & ->)].
+  destruct Hdom as [-> | ->].
   - change (1 =? 0) with false. cbv iota. cbn [obind].
     rewrite adif_pces_vbr_cons in *. rewrite <- app_assoc in *.
     match goal with H : holds ?r _ _ _ |- _ => destruct (read_pce_spec p0 r (c + 30) _ tail V0 H) as (ra & E1 & H1) end.
@@ -254,17 +277,18 @@ Proof.
     rewrite E2. cbn [obind]. exists (mkBR 0 0 (br_rest rb)). split; [reflexivity|]. cbn [br_rest].
     apply (holds_end _ _ _ _ H2 Hpad).
   - change (0 =? 0) with true. cbv iota.
-    rewrite adif_pces_cbr_one in *. cbn [app] in *. ss1.
+    rewrite adif_pces_cbr_cons in *. cbn [app] in *. rewrite <- app_assoc in *. ss1.
     match goal with H : holds ?r _ _ _ |- _ => destruct (read_pce_spec p0 r (c + 30 + 20) _ tail V0 H) as (ra & E1 & H1) end.
-    rewrite E1. cbn [obind length read_more_pces]. exists (mkBR 0 0 (br_rest ra)). split; [reflexivity|]. cbn [br_rest].
-    apply (holds_end _ _ _ _ H1 Hpad).
+    rewrite E1. cbn [obind].
+    destruct (more_pces_spec_cbr rest full ra _ [(0, pad)] tail Vr H1) as (rb & E2 & H2).
+    rewrite E2. cbn [obind]. exists (mkBR 0 0 (br_rest rb)). split; [reflexivity|]. cbn [br_rest].
+    apply (holds_end _ _ _ _ H2 Hpad).
 Qed.
 
 Theorem adif_decode_build p tail : valid_adif p -> bytes_ok tail ->
-  ad_bitstream_type p = 1 \/ zlen (ad_pces p) = 1 ->
   decode_adif (build_adif p tail) = Ok (expected_adif_info p (zlen tail)).
 Proof.
-  intros V Ht Hdom. pose proof (adif_fields_ok p V) as Fok.
+  intros V Ht. pose proof (adif_fields_ok p V) as Fok.
   pose proof (holds_init _ tail Fok Ht) as H.
   assert (Hpad : 0 <= (- fields_width (adif_fields p)) mod 8 < 8) by (apply Z.mod_pos_bound; lia).
   remember ((- fields_width (adif_fields p)) mod 8) as pad eqn:Epad. clear Epad Fok.
@@ -278,10 +302,7 @@ Proof.
   destruct pces as [|p0 rest]; [cbn in Vn; lia|].
   pose proof (Forall_inv Vp) as Vp0. pose proof (Forall_inv_tail Vp) as Vrest. clear Vp.
   assert (Hsfi : 0 <= pc_sfi p0) by (destruct Vp0 as (_ & _ & ? & _); lia).
-  assert (Hdom' : bst = 1 \/ (bst = 0 /\ rest = [])).
-  { destruct Hdom as [-> | Hl]; [left; reflexivity|]. rewrite zlen_cons in Hl.
-    assert (bst = 0 \/ bst = 1) as [-> | ->] by lia; [right | left; reflexivity].
-    split; [reflexivity|]. destruct rest; [reflexivity|]. rewrite zlen_cons in Hl. pose proof (zlen_nonneg rest). lia. }
+  assert (Hdom' : bst = 1 \/ bst = 0) by lia.
   rewrite read_adif_eq.
   rewrite fw_app in H. cbn [fields_width] in H.
   repeat rewrite <- app_assoc in H.
@@ -306,27 +327,27 @@ Proof.
     apply (read_adif_body_spec _ (0 + 1) orig home bst bitrate full p0 rest pad tail); try assumption.
 Qed.
 
-(* ------------------------------------------------------------------ outside the precondition *)
-(* ISO/IEC 13818-7 puts adif_buffer_fullness in front of EVERY program_config_element of a constant-rate header;
-   _parse_adif skips it only before the first one, so the later programs are parsed 20 bits early and the position the
-   length estimate starts from is wrong (or the header is rejected when the shifted parse runs past the end of the file).
-   Witness: two programs, constant rate, 100 bytes of raw data: length 624/128000 s instead of 800/128000 s. *)
+(* ------------------------------------------------------------------ regression: constant rate, several programs *)
+(* ISO/IEC 13818-7 puts adif_buffer_fullness in front of EVERY program_config_element of a constant-rate header.
+   _parse_adif used to skip it only before the first one (fixed in /repo 2eb4867): the later programs were parsed 20 bits
+   early, this header with 100 bytes of raw data was reported with length 624/128000 s instead of 800/128000 s, and with a
+   2 byte tail it was rejected.  The witness of the former refutation, now an instance of adif_decode_build. *)
 Definition adif_cbr2_witness : adif_p :=
   mkAdif None 0 0 0 128000 1048575
     [mkPce 0 1 4 [16] [] [] [] [] [] None None None []; mkPce 1 1 3 [0; 17] [] [18] [0] [] [] None None None [104; 101; 108; 108; 111]].
-Theorem adif_cbr_multi_pce_refuted :
-  valid_adif adif_cbr2_witness /\ bytes_ok (zeros 100) /\
-  decode_adif (build_adif adif_cbr2_witness (zeros 100)) = Ok [44100; 2; 128000; 624; 128000] /\
+Example adif_cbr_multi_pce_regression :
+  valid_adif adif_cbr2_witness /\
+  build_adif adif_cbr2_witness [] =
+    [65; 68; 73; 70; 0; 62; 128; 3; 255; 255; 224; 160; 128; 0; 4; 0; 0; 255; 255; 241; 76; 128; 80; 0; 17; 144; 0; 5; 104; 101; 108; 108; 111] /\
+  decode_adif (build_adif adif_cbr2_witness (zeros 100)) = Ok [44100; 2; 128000; 800; 128000] /\
+  decode_adif (build_adif adif_cbr2_witness [0; 0]) = Ok [44100; 2; 128000; 16; 128000] /\
   expected_adif_info adif_cbr2_witness 100 = [44100; 2; 128000; 800; 128000].
 Proof.
-  split; [|split; [|split]].
-  - unfold valid_adif, adif_cbr2_witness, valid_pce, elems_in, opt_in.
-    cbn [ad_copyright ad_original ad_home ad_bitstream_type ad_bitrate ad_fullness ad_pces pc_tag pc_object_type pc_sfi pc_front pc_side
-         pc_back pc_lfe pc_assoc pc_cc pc_mono pc_stereo pc_matrix pc_comment].
-    repeat (first [exact I | split | apply Forall_cons | apply Forall_nil]); cbn; lia.
-  - unfold bytes_ok, zeros. apply Forall_forall. intros x Hx. apply repeat_spec in Hx. lia.
-  - vm_compute. reflexivity.
-  - vm_compute. reflexivity.
+  split; [|split; [|split; [|split]]]; try (vm_compute; reflexivity).
+  unfold valid_adif, adif_cbr2_witness, valid_pce, elems_in, opt_in.
+  cbn [ad_copyright ad_original ad_home ad_bitstream_type ad_bitrate ad_fullness ad_pces pc_tag pc_object_type pc_sfi pc_front pc_side
+       pc_back pc_lfe pc_assoc pc_cc pc_mono pc_stereo pc_matrix pc_comment].
+  repeat (first [exact I | split | apply Forall_cons | apply Forall_nil]); cbn; lia.
 Qed.
 
 (* the same header as a variable-rate stream (no buffer fullness fields): byte for byte, and what is reported *)
